@@ -45,6 +45,12 @@ def r06_2(ctx):
     return [inst('R06.2', 'callgraph', True, 'local call graph over %d bodies is acyclic' % len(ctx.B))]
 
 
+def _is_next(ev):
+    p = ev.get('path') or ev.get('name') or ''
+    last = p.rsplit('::', 1)[-1]
+    return (last == 'next' and 'Iterator' in p) or (last in ('split_first', 'split_last') and 'slice' in p)
+
+
 def r06_3(ctx):
     out = []
     inv = loop_inventory(ctx)
@@ -53,9 +59,30 @@ def r06_3(ctx):
     for l in fs_loops:
         ok = True
         why = []
+        bounded_note = None
         if not l['iterator_driven']:
-            ok = False
-            why.append('cycle performs filesystem calls but is not driven by Iterator::next (retry/poll loop?)')
+            # a cycle of the CFG is not necessarily a cycle of the program: `loop { .. }` bounded by a flag or a small
+            # constant counter unrolls in the abstract exploration (the flag is a concrete value there).  Accept the loop
+            # iff the state graph of the enclosing function has no cycle through any primitive call, i.e. the number of
+            # primitive calls is bounded on every path whatever the primitives return; a retry/poll loop that depends on
+            # an outcome revisits the same abstract state and stays a cycle.
+            n = None
+            try:
+                q = ctx.explore(l['key'])
+                ext = [i for i, (a, b, ev) in enumerate(q.E) if ev is not None and ev['k'] == 'ext']
+                # cycles driven by an iterator (maintenance scans inlined into the same exploration) are judged by their
+                # own inventory entry; cut them at their `next` and look for what is still cyclic
+                nxt = {i for i in ext if _is_next(q.E[i][2])}
+                comp, _ = q.sccs(blocked=nxt)
+                cyclic = [i for i in ext if i not in nxt and comp[q.E[i][0]] == comp[q.E[i][1]]]
+                n = float('inf') if cyclic else len(ext)
+            except Exception:   # fail closed: an unexplorable function keeps the CFG verdict
+                n = None
+            if n is not None and n != float('inf'):
+                bounded_note = 'CFG cycle unrolls in the state graph: no primitive call lies on a cycle of abstract states (other than iterator-driven scans)'
+            else:
+                ok = False
+                why.append('cycle performs filesystem calls but is not driven by Iterator::next (retry/poll loop?)')
         else:
             for it in l['iter_types']:
                 if not any(it.startswith(p) for p, _ in ACCEPTED_ITERATORS):
@@ -69,7 +96,7 @@ def r06_3(ctx):
             why.append('filesystem loop nested inside another (via %s)' % nested[:3])
         key = '%s|iter=%s|eff=%s' % (l['path'], ','.join(sorted(set(l['iter_types']))) or 'none',
                                       ','.join(sorted(l['effects'] & FSISH)))
-        out.append(inst('R06.3', key, ok, '; '.join(why) or 'iterator loop over %s' % l['iter_types'],
+        out.append(inst('R06.3', key, ok, '; '.join(why) or bounded_note or 'iterator loop over %s' % l['iter_types'],
                         path=['%s (blocks %s)' % (l['span'], l['blocks'])]))
     ctx._loop_inv = inv
     return out
